@@ -17,7 +17,7 @@ RULE = ("cases from rng(seed, 2, 0, i): a random graph of 1..40 edges over r2/r3
         "chi2>0 after perturbing one measurement; every 5th checks linearity in Omega on twin edges; every 8th case is an operand history on one live edge (estimate / pose / offset / information replaced or modified in place between calls). distinct = fingerprint of the spec; "
         "non-trivial = chi2 above 1e3 x rounding bound, or a consistent graph with >=3 edges.")
 REQ = ["eval:error-vs-reference", "eval:information-stored-as-given", "eval:chi2-vs-eT-Omega-e", "eval:graph-chi2-is-sum", "eval:optimize-initial-chi2-is-graph-chi2", "eval:consistent-graph-chi2-zero", "eval:perturbed-measurement-chi2-positive",
-       "eval:chi2-linear-in-Omega", "eval:chi2-nonnegative-psd", "kind:odo-se3", "kind:lm-se3", "kind:lm-se2", "kind:lm-r2", "class:info:cross", "class:info:tiny_scale", "class:info:huge_scale", "class:q:wneg", "class:landmark_offset_rotated", "history_steps", "class:info:integer_dtype", "class:edges_prebound_to_stale_vertices", "class:graph_with_4000+_edges", "class:chi2_after_optimize_then_external_move", "class:info:sparse:zero_rows_and_blocks"]
+       "eval:chi2-linear-in-Omega", "eval:chi2-nonnegative-psd", "kind:odo-se3", "kind:lm-se3", "kind:lm-se2", "kind:lm-r2", "class:info:cross", "class:info:tiny_scale", "class:info:huge_scale", "class:q:wneg", "class:landmark_offset_rotated", "history_steps", "class:info:integer_dtype", "class:edges_prebound_to_stale_vertices", "class:graph_with_4000+_edges", "class:chi2_after_optimize_then_external_move", "class:info:sparse:zero_rows_and_blocks", "class:info:negative_coefficient(indefinite information)", "class:edge_overriding_calc_chi2_in_graph_sum"]
 PLAN = {
     "quick": {"cases": 6000, "soft_s": 60, "min_nontrivial": 1000, "require": REQ},
     "thorough": {"cases": 120000, "soft_s": 1100, "min_nontrivial": 10000, "require": REQ},
@@ -250,6 +250,23 @@ def run_case(ctx, i, rng):
     else:
         if abs(c_graph) > 1e3 * tot_bound:
             ctx.nontrivial(gen.fingerprint(spec))
+    if i % 6 == 1:
+        # dynamic dispatch: the graph's chi2 is the sum of what each edge's *own* calc_chi2() returns (an edge class may override it - weighted / robust costs)
+        from .. import custom
+
+        v0 = g._vertices[int(rng.integers(len(g._vertices)))]
+        nt = {"r2": 2, "r3": 3, "se2": 2, "se3": 3}[M.kind(v0.pose)]
+        if all(math.isfinite(x) for x in M.fl(v0.pose)):
+            re = custom.RobustPositionPrior([v0.id], np.eye(nt) * 4.0, np.array([x + 1.5 for x in M.fl(v0.pose)[:nt]]))
+            g_r = M.Graph(list(g._edges) + [re], list(g._vertices))
+            with np.errstate(all="ignore"):
+                parts = [float(e_.calc_chi2()) for e_ in g_r._edges]
+                cg = float(g_r.calc_chi2())
+            if all(math.isfinite(x) for x in parts):
+                ctx.close("graph-chi2-is-sum", cg, math.fsum(parts), 64 * len(parts) * R.EPS * math.fsum(abs(x) for x in parts) + 1e-300,
+                          {"edges": len(parts), "with_edge_overriding_calc_chi2": True}, None, case)
+                ctx.count("class:edge_overriding_calc_chi2_in_graph_sum")
+            # (the extra graph re-bound the shared edge objects to the same vertex objects: nothing to restore)
     if i % 5 == 0:
         # linearity in Omega on twin edges
         j = int(rng.integers(ne))
@@ -258,6 +275,13 @@ def run_case(ctx, i, rng):
         O1, _ = gen.info(rng, n, 1e4, scale_exp=2.0, extreme_scale=True)
         O2, _ = gen.info(rng, n, 1e4, scale_exp=2.0, extreme_scale=True)
         a, b = float(10 ** rng.uniform(-2, 2)), float(10 ** rng.uniform(-2, 2))
+        if rng.random() < 0.4:
+            # linear means linear: negative coefficients too (a difference of two information matrices is symmetric but indefinite; the quadratic
+            # form e^T Omega e is then negative for some errors - the documented formula has no clamp)
+            b = -b
+            if rng.random() < 0.5:
+                a = -a
+            ctx.count("class:info:negative_coefficient(indefinite information)")
         keep = e.information
         vals = []
         with np.errstate(all="ignore"):
@@ -267,7 +291,7 @@ def run_case(ctx, i, rng):
         e.information = keep
         s = O.edge_scale(e)
         er = M.edge_ref_error(e)
-        bound = a * O.chi2_bound(er, O1, s) + b * O.chi2_bound(er, O2, s) + O.chi2_bound(er, a * O1 + b * O2, s)
+        bound = abs(a) * O.chi2_bound(er, O1, s) + abs(b) * O.chi2_bound(er, O2, s) + O.chi2_bound(er, a * O1 + b * O2, s)
         ctx.close("chi2-linear-in-Omega", vals[2], a * vals[0] + b * vals[1], bound, O.edge_features(e), {"a": a, "b": b}, case)
     ctx.sample({"vertices": spec["vertices"][:3], "edges": [{k: v for k, v in e.items() if k != "info"} for e in spec["edges"][:2]], "n_edges": ne, "consistent": consistent}, cap=2)
 
